@@ -7,4 +7,4 @@ Set Extraction KeepSingleton.
 Extraction "model_heap.ml"
   Z.add Z.sub Z.mul Z.div Z.modulo Z.abs Z.opp Z.leb Z.ltb Z.eqb Z.of_nat Z.to_nat Z.of_N Z.to_N
   errno
-  init_state step hfind heap_of nxt.
+  init_state step hfind heap_of nxt ptr_target ptr_walk zlen.
